@@ -139,7 +139,7 @@ def ratio_ok(got, num, den):
     return eq(got, num / den)
 
 
-SCALES = [(2.0, 0.5, 1024.0, 3.0, 0.1)]
+SCALES = [(2.0, 0.5, 1024.0, 3.0, 0.1, 2.0 ** -30, 2.0 ** 40)]     # incl. levels of the order of 1e-9 and 1e12
 LONG = [False]
 
 
@@ -223,7 +223,7 @@ def check_series(vals, shape, scale_checks=True):
     except Exception as ex:
         msgs.append("tracking_error (benchmark ending earlier) raised %r" % (ex,))
     # DataFrame with a second (reversed) column
-    if not msgs and not (n >= (4 if len(SCALES[0]) == 2 else 5)):
+    if not msgs and not (n >= (4 if len(SCALES[0]) == 3 else 5)):
         rv = list(vals)[::-1]
         df = pd.DataFrame({"a": list(vals), "b": rv}, index=pd.DatetimeIndex(stamps))
         refb, _, _, _ = ref_metrics(rv, stamps)
@@ -286,7 +286,7 @@ def check_series(vals, shape, scale_checks=True):
         except Exception as ex:
             msgs.append("tracking_error raised %r" % (ex,))
     # scale invariance
-    if scale_checks and not msgs and not (n >= (4 if len(SCALES[0]) == 2 else 5)):
+    if scale_checks and not msgs and not (n >= (4 if len(SCALES[0]) == 3 else 5)):
         for c in SCALES[0]:
             for k in METRICS:
                 try:
@@ -307,7 +307,7 @@ def check_long(vals, shape):
         # perturbs each return by an ulp, which re-shuffles NEARLY tied returns around the VaR quantile / around zero in a long
         # record and moves the discontinuous metrics (expected shortfall, downside volatility) - float noise, not a scale dependence;
         # inexact factors are judged on the short series, where no such near-ties exist
-        for c in (2.0, 0.25, 1024.0):
+        for c in (2.0, 0.25, 1024.0, 2.0 ** -30):
             for k in METRICS:
                 a, b = float(getattr(sl * c, k)()), float(getattr(sl, k)())
                 # ratios whose textbook denominator is zero / undefined carry rounding noise in a long record: nothing is required of them
@@ -451,7 +451,7 @@ def valid(vals, shape):
 
 def _work(chunk):
     if chunk and chunk[0][3] == "quick":
-        SCALES[0] = (2.0, 0.1)
+        SCALES[0] = (2.0, 0.1, 2.0 ** -30)
     out = {"evaluations": 0, "violations": [], "nontrivial": set(), "corruption_calls": 0}
     for (kind, vals, shape, _tier) in chunk:
         if not valid(vals, shape):
@@ -525,7 +525,7 @@ def run(tier, **kw):
                     "risk-free rate), VaR and expected shortfall also at quantile levels 0.25/0.5/0.75/1, 3 series-valued metrics, a 2-column DataFrame, a risk-free level series, tracking error against a benchmark, and 5 "
                     "scalings; corruptions: every single-defect variant (NaN / 0 / negative at each position, duplicated stamp, swapped adjacent stamps, "
                     "integer / string / NaT index) of every series over 4 values up to length 4 x every metric; tearsheet rows of a TrackRecord fed with the path; "
-                    "long records: every cyclic pattern of day-to-day ratios {2, 1/2, 1, 3/2, 2/3} of period <= 2 (quick) / 3 (thorough) at lengths 41, 260 (601) on business-day and three-stamps-per-day indices, all scalar and series-valued metrics and 3 power-of-two scalings; "
+                    "long records: every cyclic pattern of day-to-day ratios {2, 1/2, 1, 3/2, 2/3} of period <= 2 (quick) / 3 (thorough) at lengths 41, 260 (601) on business-day and three-stamps-per-day indices, all scalar and series-valued metrics and 4 power-of-two scalings (down to 2^-30); "
                     "non-trivial = distinct case whose daily levels are not all equal" % maxlen)
     rep.set("samples", [{"kind": "metrics", "vals": [1.0, 2.0, 1.5, 3.0], "shape": "intraday"}, {"kind": "corrupt", "vals": [2.0, 1.0, 4.0], "shape": "daily"}])
     rep.assumptions = ["small-scope: real-valued inputs outside the alphabet are beyond a bounded enumeration; long records are covered only for periodic ratio patterns",
